@@ -1,11 +1,14 @@
 import ExoVerif.Generated.Facts
+import ExoVerif.Generated.DistrSlices
 import ExoVerif.Model.DistributionParams
 /-!
 # C17 tie, parameter updates: the Go functions `Model/DistributionParams.lean` transcribes are the ones it was
 written against
 
 Regenerated on every run by tools/exofacts/facts_rewards_params.go (statement shapes as in `Props/C17Tie.lean`, plus
-the list of every KVStore write of the two keepers).
+the list of every KVStore write of the two keepers), and by tools/exofacts/facts_rewards_params.go: distrTaxGuardGen
+(`Generated/DistrSlices.lean`: the community-tax guard of x/feedistribution Params.Validate translated by the GoLite
+translator and proved equal to the model's guard for every raw value, `C17_tie_distrTaxGuard`).
 -/
 namespace ExoVerif.Distr
 open ExoVerif.Gen
@@ -88,12 +91,15 @@ theorem C17_tie_shapeValidateEpochIdentifierString : shapeValidateEpochIdentifie
     "end if",
     "return nil"] := rfl
 
-/-- x/feedistribution UpdateParams ↔ `distrUpdateParams`: unknown identifier refused before any write, otherwise the message's params stored as they are -/
+/-- x/feedistribution UpdateParams ↔ `distrUpdateParams`: stateless validation (`req.Params.Validate()`, the community-tax bound — repair of F-17c) refused first, then an unknown identifier, both before any write; otherwise the message's params stored as they are -/
 theorem C17_tie_shapeDistrUpdateParams : shapeDistrUpdateParams =
   [
     "ctx := sdk.UnwrapSDKContext(goCtx)",
     "if utils.IsMainnet(ctx.ChainID()) && k.authority != req.Authority",
     "return nil, govtypes.ErrInvalidSigner.Wrapf( \"invalid authority; expected %s, got %s\", k.authority, req.Authority, )",
+    "end if",
+    "if err := req.Params.Validate(); err != nil",
+    "return nil, err",
     "end if",
     "epochIdentifier := req.Params.EpochIdentifier",
     "_, found := k.epochsKeeper.GetEpochInfo(ctx, epochIdentifier)",
@@ -103,10 +109,43 @@ theorem C17_tie_shapeDistrUpdateParams : shapeDistrUpdateParams =
     "k.SetParams(ctx, req.Params)",
     "return &types.MsgUpdateParamsResponse{}, nil"] := rfl
 
-/-- x/feedistribution Params.Validate checks nothing (and UpdateParams does not call it): the model stores any tax -/
+/-- x/feedistribution Params.Validate ↔ `DistrMsg.valid`: one guard (a non-nil community tax that is negative or above 1) and nothing else -/
 theorem C17_tie_shapeDistrParamsValidate : shapeDistrParamsValidate =
   [
+    "if !p.CommunityTax.IsNil() && (p.CommunityTax.IsNegative() || p.CommunityTax.GT(sdk.OneDec()))",
+    "return fmt.Errorf(\"community tax must be in [0, 1]: %s\", p.CommunityTax)",
+    "end if",
     "return nil"] := rfl
+
+/-- The guard of Params.Validate, translated from the Go source (`Generated/DistrSlices.lean`), IS the model's guard:
+for every raw value of a non-nil community tax the Go condition `IsNegative() || GT(OneDec())` holds exactly when
+`distrTaxOutOfRange` rejects, i.e. (C17_tax_guard_iff) exactly outside [0, 10^18]. A changed comparison (`GTE`, `LT`,
+a bound other than `sdk.OneDec()`, a dropped disjunct) changes the left-hand side and breaks this theorem. -/
+theorem C17_tie_distrTaxGuard (t : Int) : distrTaxOutsideUnit ⟨t⟩ = distrTaxOutOfRange (some t) := by
+  simp only [distrTaxOutsideUnit, distrTaxOutOfRange, Dec.isNegative, Dec.gt, Dec.one]
+  congr
+
+/-- … and a nil community tax is not rejected (the extractor matched `!p.CommunityTax.IsNil() && (…)` as the whole
+condition of the one guard): `distrTaxOutOfRange none = false`; the condition as written is pinned too. -/
+theorem C17_tie_distrTaxGuardNil : (distrTaxGuardNilPasses = true ∧ distrTaxOutOfRange none = false) ∧
+    distrTaxGuardSource = "!p.CommunityTax.IsNil() && (p.CommunityTax.IsNegative() || p.CommunityTax.GT(sdk.OneDec()))" :=
+  ⟨⟨rfl, rfl⟩, rfl⟩
+
+/-- genesis: Keeper.InitGenesis stores the genesis params as they are — Params.Validate is NOT called here (the
+theorems of Props/C17Tax.lean take the tax bound of the initial state as a hypothesis) -/
+theorem C17_tie_shapeDistrInitGenesis : shapeDistrInitGenesis =
+  [
+    "k.SetParams(ctx, genState.Params)",
+    "epochID := genState.Params.EpochIdentifier",
+    "_, found := k.epochsKeeper.GetEpochInfo(ctx, epochID)",
+    "if !found",
+    "panic(\"not found the epoch info\")",
+    "end if"] := rfl
+
+/-- … while GenesisState.Validate (AppModuleBasic.ValidateGenesis: the `validate-genesis` command, not InitChain) does -/
+theorem C17_tie_shapeDistrGenesisValidate : shapeDistrGenesisValidate =
+  [
+    "return gs.Params.Validate()"] := rfl
 
 /-- the mint hook reads the stored params at every notification -/
 theorem C17_tie_shapeMintGetParams : shapeMintGetParams =
@@ -168,7 +207,7 @@ theorem C17_tie_shapeMintMsgValidateBasic : shapeMintMsgValidateBasic =
     "end if",
     "return m.Params.Validate()"] := rfl
 
-/-- feedistribution MsgUpdateParams.ValidateBasic: Params.Validate (which checks nothing) -/
+/-- feedistribution MsgUpdateParams.ValidateBasic ↔ `DistrMsg.validateBasic`: Params.Validate of the message's params (the community-tax bound) -/
 theorem C17_tie_shapeDistrMsgValidateBasic : shapeDistrMsgValidateBasic =
   [
     "if _, err := sdk.AccAddressFromBech32(m.Authority); err != nil",
